@@ -82,6 +82,7 @@ type rules struct {
 	nFault   int
 	nPush    int
 	merged   bool
+	pre      seqx.Pre
 	pending  []mdp.Fault // armed faults (absolute positions)
 	// per session (by UP SEID) URR data for C05's seqn isolation is in the server dump
 	recovery map[uint32]int // recovery time stamps seen (C08)
@@ -124,9 +125,7 @@ func rulesSpec(prop string) func(tier, scenario string) seqx.Spec {
 					// start from the state in which A and B are associated (not counted in the depth): every
 					// isolation / rule-lifetime scenario of interest needs both, and re-association stays in the alphabet
 					for p := 0; p < 2; p++ {
-						if res := r.Apply(seqx.Ev("Assoc", int64(p), int64(p))); len(res.Viols) > 0 {
-							evid.Infra("%s prefix: %v", prop, res.Viols)
-						}
+						r.pre.Add(r.Apply(seqx.Ev("Assoc", int64(p), int64(p))).Viols...)
 					}
 				}
 				return r
@@ -705,7 +704,7 @@ func (r *rules) Apply(e seqx.Event) seqx.StepResult {
 	} else {
 		j.Viols = filterProp(j.Viols, "C01")
 	}
-	return seqx.StepResult{Obs: e.String() + " => " + o.StringL(r.Label), Viols: j.Viols, Tags: j.Tags}
+	return seqx.StepResult{Obs: e.String() + " => " + o.StringL(r.Label), Viols: append(r.pre.Take(), j.Viols...), Tags: j.Tags}
 }
 
 // which signatures belong to which property: C01 judges rule lifetime, C05 judges isolation; everything
